@@ -17,6 +17,11 @@
 // four documented differences; (C) structural: the gojq.JQValue methods of every
 // wrapper agree with each other and with the expected JSON; (D) every documented
 // `_` key is readable and has the value recorded in the decoded tree.
+//
+// Knobs: VERIF_ONLY=reference|structural|underscore|cli|queries (one section),
+// C08_VALUE=<substring of "tree path"> (only such values), C08_NOCORPUS=1,
+// C08_PROBE=<jq program over {sorted,unsorted,gaps,array,objs}> (development),
+// C08_PROF=<file> (CPU profile of shard 0).
 package c08
 
 import (
@@ -1182,7 +1187,7 @@ func run(r *core.Run) {
 	for _, t := range trees {
 		max := 0
 		if !t.isPlan {
-			max = core.Pick(r, 40, 150)
+			max = core.Pick(r, 40, 100)
 		}
 		vs, total, err := t.values(max)
 		if err != nil {
@@ -1198,7 +1203,7 @@ func run(r *core.Run) {
 		}
 	}
 	if r.ShardIdx == 0 {
-		r.Extra("corpus_values_per_tree_cap_breadth_first", core.Pick(r, 40, 150))
+		r.Extra("corpus_values_per_tree_cap_breadth_first", core.Pick(r, 40, 100))
 		r.Extra("trees", len(trees))
 		r.Extra("values", len(vals))
 		r.Logf("%d trees, %d values, %d nodes (%d core)", len(trees), len(vals), len(e.fam), len(e.core))
@@ -1233,10 +1238,12 @@ func run(r *core.Run) {
 
 var assumptions = []string{
 	"tovalue is evaluated as tovalue({bits_format:\"string\"}): the in-process session has no option stack; \"string\" and skip_gaps=false are the command line defaults (the cli section ties this to the real command line)",
+	"parameter pools: first node: K = up to 4 present names + \"nosuch\", \"a\", \"\"; I = {-2,-1,0,1,len-1,len,len+1,null,1.5}; [A,B] = all pairs over {-2,-1,0,1,len-1,len,len+1,null}; P = 18 fixed JSON values + the value itself; nodes at positions >= 2: K = first present name + \"nosuch\", I = {-1,0,len}, 4 slices, P = 5 values + the value itself. Quick: a first node whose parameter lies outside the reduced pool is judged but its outputs are not continued to a second node; thorough continues all of them and adds the third node",
 	"a pipeline n1|n2 is decided per output of n1: [o | n2] is compared for every output o of n1 that still carries a decode value; outputs that are identical plain JSON in identical Go representation on both sides are not followed (the continuation is the same deterministic computation on both sides); outputs that are themselves enumerated tree values are not followed (the continuation is that value's own 1-node row)",
 	"on values below which some struct lists its fields in non sorted name order only order independent nodes are applied and results are compared as multisets (documented difference 1); every scalar kind also occurs in trees whose structs are all in sorted order, where every node is applied and compared exactly",
 	"`_` prefixed names are never used as key parameters (documented difference 2); their readability is checked separately against the decoded tree",
 	"values that hold raw bits that are not UTF-8 are compared after mapping each such byte to U+FFFD on both sides (documented difference 4: what JSON output shows); that tovalue keeps the bytes is checked exactly by the reference oracle",
+	"a node that makes fq panic or that changes the decoded tree is reported and then evaluated in isolation (alone; one item at a time for items that can reach a Go container owned by a tree; the tree is verified against its pristine copy and repaired afterwards) so that the remaining nodes are still judged on intact values",
 	"sym values are the Go types the interpreter accepts from decoders (string, int, int64, uint64, float64, *big.Int, bool, []any, map[string]any); a bit reader as sym is not a jq type and is not constructed",
 }
 
